@@ -168,6 +168,17 @@ def build(rng):
                     act.add_effect(tg, rng.choice([True, False]), rng.choice(L))
                 else:
                     act.add_effect(tg, rng.choice([True, False]))
+            # sometimes: a second conditional effect on a fluent the action already writes, under another condition -- with the same value (the
+            # two branches then repeat one assignment) or with the other value.  Separate random stream: the rest of the family is unchanged.
+            rng2 = random.Random(rng.getstate()[1][1] ^ (0x9E37 + i))
+            if rng2.random() < 0.35 and act.effects:
+                e0 = rng2.choice(list(act.effects))
+                if e0.fluent.type.is_bool_type():
+                    v = e0.value.bool_constant_value() if rng2.random() < 0.7 else (not e0.value.bool_constant_value())
+                    try:
+                        act.add_effect(e0.fluent, v, rng2.choice(L))
+                    except Exception:  # noqa: statically conflicting with an unconditional effect
+                        pass
             ag.add_action(act)
         pr.add_agent(ag)
     a1 = pr.agent("ag1")
